@@ -53,7 +53,18 @@ func sortQueuesByPriority(queues []*Queue) {
 	})
 }
 
+// fairMaxByQueue links each queue to its fair max resource. The fairMaxResources slice is ordered like the
+// queues slice before sorting: the sort moves the queues, so the comparators cannot use the slice index.
+func fairMaxByQueue(queues []*Queue, fairMaxResources []*resources.Resource) map[*Queue]*resources.Resource {
+	fairMax := make(map[*Queue]*resources.Resource, len(queues))
+	for i, queue := range queues {
+		fairMax[queue] = fairMaxResources[i]
+	}
+	return fairMax
+}
+
 func sortQueuesByPriorityAndFairness(queues []*Queue, fairMaxResources []*resources.Resource) {
+	fairMax := fairMaxByQueue(queues, fairMaxResources)
 	sort.SliceStable(queues, func(i, j int) bool {
 		l := queues[i]
 		r := queues[j]
@@ -66,8 +77,8 @@ func sortQueuesByPriorityAndFairness(queues []*Queue, fairMaxResources []*resour
 			return false
 		}
 
-		comp := resources.CompUsageRatioSeparately(l.GetAllocatedResource(), l.GetGuaranteedResource(), fairMaxResources[i],
-			r.GetAllocatedResource(), r.GetGuaranteedResource(), fairMaxResources[j])
+		comp := resources.CompUsageRatioSeparately(l.GetAllocatedResource(), l.GetGuaranteedResource(), fairMax[l],
+			r.GetAllocatedResource(), r.GetGuaranteedResource(), fairMax[r])
 
 		if comp == 0 {
 			return resources.StrictlyGreaterThan(resources.Sub(l.GetPendingResource(), r.GetPendingResource()), resources.Zero)
@@ -77,12 +88,13 @@ func sortQueuesByPriorityAndFairness(queues []*Queue, fairMaxResources []*resour
 }
 
 func sortQueuesByFairnessAndPriority(queues []*Queue, fairMaxResources []*resources.Resource) {
+	fairMax := fairMaxByQueue(queues, fairMaxResources)
 	sort.SliceStable(queues, func(i, j int) bool {
 		l := queues[i]
 		r := queues[j]
 
-		comp := resources.CompUsageRatioSeparately(l.GetAllocatedResource(), l.GetGuaranteedResource(), fairMaxResources[i],
-			r.GetAllocatedResource(), r.GetGuaranteedResource(), fairMaxResources[j])
+		comp := resources.CompUsageRatioSeparately(l.GetAllocatedResource(), l.GetGuaranteedResource(), fairMax[l],
+			r.GetAllocatedResource(), r.GetGuaranteedResource(), fairMax[r])
 		if comp == 0 {
 			lPriority := l.GetCurrentPriority()
 			rPriority := r.GetCurrentPriority()
